@@ -213,17 +213,17 @@ pub mod shrink {
 
 fn describe(prop: &str) -> EngineDescription {
     let rule = match prop {
-        "C31" => "Chain histories of 2–5 script transactions (grammar-generated programs calling 1–4 generated contracts; transfers, storage, heap growth, panics inside calls) executed by a reference replica (fresh interpreter + fresh memory per tx) and by perturbed replicas: one long-lived interpreter reused for everything, fresh interpreters over the dirty memory of the previous tx, storage I/O error or crash at the k-th storage call followed by rollback + restart (fresh or reused) + re-execution, an abandoned debug session. After every transaction (state, receipts, output tx bytes, storage dump) must equal the reference. Non-trivial: a replica ran ≥ 3 txs on one instance including a panic inside a call and a heap ≥ 16 KiB; distinct = distinct event digests.",
+        "C31" => "Chain histories of 2–5 script transactions (grammar-generated programs calling 1–4 generated contracts; transfers, storage, heap growth, panics inside calls) executed by a reference replica (fresh interpreter + fresh memory per tx) and by perturbed replicas: one long-lived interpreter reused for everything, fresh interpreters over the dirty memory of the previous tx, storage I/O error or crash at the k-th storage call followed by rollback + restart (fresh or reused) + re-execution, an abandoned debug session; and the real long-lived MemoryClient (one Transactor) running the whole history including the transactions the VM refuses at initialisation (one in eight lists an input contract that does not exist). After every transaction (state, receipts, output tx bytes, storage dump; for the client: contract state and balances) must equal the reference. Non-trivial: a replica ran ≥ 3 txs on one instance including a panic inside a call and a heap ≥ 16 KiB; distinct = distinct event digests.",
         "C32" => "Same histories; replicas with single-stepping and with 1–3 random breakpoint sets (script and contract locations, loop targets), resumed after every event to completion: result tuple equals the reference; the sequence of debug events embeds order-preservingly and injectively into the single-stepped trace of arrivals at breakpoint locations with identical registers (reported at most once, before the instruction executes). Non-trivial: ≥ 1 debug event was reported and matched.",
         "C28" => "Histories executed by the reference replica; for every completed script: exactly one ScriptResult, last; preceded by Panic iff result is panic; success iff the program state is a return; revert iff preceded by a Revert receipt; ≤ 65 535 receipts; receipts_root of the output tx == RFC 6962 root of the encoded receipts; on revert/panic variable outputs zero and change = initial free balance (+ refund). The same txs through the real MemoryClient: same receipts, and storage Debug-dump unchanged by reverted/panicked transactions. Non-trivial: a panic with ≥ 2 Call receipts (depth ≥ 2).",
-        "C29" => "Scripts and contracts from raw random words (half of the runs) or the grammar, random initial values poked into writable registers, default / unit / randomized / sparse-zero gas schedules, storage I/O errors at the k-th storage call; every tx single-stepped under a supervisor: no host panic, no InterpreterError::Bug, result is a program state or (only with an injected fault) a storage error, and under the default schedule every executed instruction lowers $ggas. Non-trivial: ≥ 50 executed instructions of ≥ 10 distinct opcodes, or a fault fired in a tx with a call.",
-        "C24" => "Observer replica single-steps 1–3 generated script transactions calling 1–4 generated contracts (loads/stores/copies/clears aimed at owned buffers, and — in the wild share of items — at the transaction bytes, code, balance table, just outside $sp/$hp, the caller's frame and the caller's heap just beyond the own allocation, after stack shrink/regrow, from callees with their own heap; storage-read, code-copy, hash and elliptic-curve instructions with foreign destinations). After every instruction the whole memory (stack buffer + accessible heap) is diffed against a clone taken before it: every changed byte must lie in the owned stack/heap region before or after the step or in the VM's own writes of that opcode; LB/LW/SB/SW/MCL/MCLI/MCP/MCPI/MEQ panics must be among those the accessibility/ownership model allows and must occur when it requires one; ALOC'd bytes are zero. Non-trivial: an ownership refusal inside a call, or a heap write by a callee; distinct = distinct event digests.",
+        "C29" => "Scripts and contracts from raw random words (half of the runs) or the grammar, random initial values poked into writable registers, default / unit / randomized / sparse-zero gas schedules, storage I/O errors at the k-th storage call, boundary-sized lengths/offsets/counts (2^64−k, 2^63, 2^62, 2^40, 2^34, 2^32±1, 2^26±k) in the wild share of items, JAL to the last bytes of memory, receipt floods ending on the last six receipt slots followed by a call into a quiet contract (1 run in 600); three quarters of the txs single-stepped under a supervisor, one quarter (and every flood) executed by one uninterrupted transact, half of the runs on one reused interpreter: no host panic, no InterpreterError::Bug, result is a program state or (only with an injected fault) a storage error, and under the default schedule every executed instruction lowers $ggas. Non-trivial: ≥ 50 executed instructions of ≥ 10 distinct opcodes, or a fault fired in a tx with a call.",
+        "C24" => "Observer replica single-steps 1–3 generated script transactions calling 1–4 generated contracts (loads/stores/copies/clears aimed at owned buffers, and — in the wild share of items — at the transaction bytes, code, balance table, just outside $sp/$hp, the caller's frame and the caller's heap just beyond the own allocation, after stack shrink/regrow, from callees with their own heap; storage-read, code-copy, hash and elliptic-curve instructions with foreign destinations). After every instruction the whole memory (stack buffer + accessible heap) is diffed against a clone taken before it: every changed byte must lie in the owned stack/heap region before or after the step or in the VM's own writes of that opcode; LB/LW/LQW/LHW/SB/SW/SQW/SHW/MCL/MCLI/MCP/MCPI/MEQ/LOGD/RETD/S256/K256 panics must be among those the accessibility/ownership model allows and must occur when it requires one; ALOC'd bytes are zero. Non-trivial: an ownership refusal inside a call, or a heap write by a callee; distinct = distinct event digests.",
         "C25" => "Observer replica single-steps generated programs with forward skips, bounded loops (JNZB/JNZI/JNEB back edges), JAL subroutines with computed addresses, absolute and register jumps with operands near 2^24, 2^26/4, 2^62, 2^64−1, LDC followed by further execution. Per step: jump target by an unbounded-integer model (taken/untaken, MemoryOverflow iff outside memory, link register, reserved link register refused), CALL entry ($pc=$is=$fp+frame size, $fp=old $sp), return to saved $pc+4, +4 for every other completed instruction, execution only inside [$is,$ssp) and fetch panics only outside. Non-trivial: a backward jump and a JAL round trip in the run.",
-        "C26" => "Observer replica under default / unit / randomized-distinct / sparse-zero schedules with gas limits drawn from exhaustion ranges (0–200, 200–3 000, … ) in a quarter of the runs and forwarded gas drawn as all / 2 000–60 000 / 0–60 / boundary values. Per step the independent schedule evaluator (mon_gas.rs) lists the charges of the instruction from the pre-state (fixed costs for ~100 opcodes, dependent costs, CALL/LDC/CCP/CSIZ/CROO/BSIZ/BLDD base + size stages, storage hot/cold reads with the pre-state slot cache, writes, new-byte and new-balance-entry charges) and compares: consumed == sum on completion, OutOfGas ⇒ $cgas=0 and $ggas reduced by the old $cgas and the prescribed sum really exceeds it, other panics consume a stage prefix, $cgas ≤ $ggas, $ggas monotone, CALL forwarding/saved remainder, return credit, ScriptResult.gas_used. Non-trivial: an OutOfGas inside a multi-stage instruction or a nested return with unspent gas.",
+        "C26" => "Observer replica under default / unit / randomized-distinct / sparse-zero schedules with gas limits drawn from exhaustion ranges (0–200, 200–3 000, … ) in a quarter of the runs and forwarded gas drawn as all / 2 000–60 000 / 0–60 / boundary values. Per step the independent schedule evaluator (mon_gas.rs) lists the charges of the instruction from the pre-state (fixed costs for ~100 opcodes, dependent costs, CALL/LDC/CCP/CSIZ/CROO/BSIZ/BLDD base + size stages, storage hot/cold reads decided by the monitor's own per-transaction set of touched slots (read, written or inside a cleared range), writes, new-byte and new-balance-entry charges) and compares: consumed == sum on completion, OutOfGas ⇒ $cgas=0 and $ggas reduced by the old $cgas and the prescribed sum really exceeds it, other panics consume a stage prefix, $cgas ≤ $ggas, $ggas monotone, CALL forwarding/saved remainder, return credit, ScriptResult.gas_used. Non-trivial: an OutOfGas inside a multi-stage instruction or a nested return with unspent gas.",
         "C27" => "Observer replica with the storage log on: scripts and contracts that TR, TRO, CALL with coins, MINT, BURN, SMO over 1–3 assets with balances near 0 and near 2^64−1, reverts/panics spliced after movements, storage I/O errors at a seeded call. Per step: contract-balance deltas (from recorded ContractsAssets writes against a running model) and free-balance deltas (verif_balances hook) must equal exactly the movements announced by the step's Transfer/TransferOut/Call/Mint/Burn/MessageOut receipts; the balance table in VM memory equals the internal free balances. Per transaction: the u128 ledger equation per asset over inputs, contract balances before/after (as settled by the embedder), outputs, minted, burned, unclaimed free balance, fee and outgoing messages. Non-trivial: ≥ 2 checked movements in a transaction.",
-        "C30" => "Observer replica with the recording storage seam: CALL, TR, BAL, CSIZ, CROO, CCP, LDC aimed at input contracts, at a deployed contract that is not an input, and at absent ids (script transactions; inputs sometimes drop a deployed contract). Every access to ContractsRawCode / ContractsState / ContractsAssets (get, contains_key, size_of_value, reads, writes) in a step must name an input contract, and the contract at $fp is always an input. Non-trivial: ≥ 1 contract-addressing instruction aimed at a deployed non-input contract.",
+        "C30" => "Observer replica with the recording storage seam: CALL, TR, BAL, CSIZ, CROO, CCP, LDC aimed at input contracts, at a deployed contract that is not an input, and at absent ids (script transactions; inputs sometimes drop a deployed contract). Every access to ContractsRawCode / ContractsState / ContractsAssets (get, contains_key, size_of_value, reads, writes) in a step must name an input contract (an access listed as a known finding never masks another offending access of the same instruction), half of the runs keep one interpreter across the transactions, and the contract at $fp is always an input. Non-trivial: ≥ 1 contract-addressing instruction aimed at a deployed non-input contract.",
         "C33" => "Observer replica: contracts execute SRW SRWQ SWW SWWQ SCWQ SCLR SRDD SRDI SWRD SWRI SUPD SUPI SPLD over 8 clustered keys (consecutive, so ranges overlap; one in ten pools sits at the 2^256−1 boundary), values of length 0/8/31/32/33/100/120, legacy and dynamic instructions interleaved on the same slots, across calls, contracts and transactions; the slot cache is cleared or partially evicted at seeded steps; storage I/O errors at seeded calls. From a plain key-value map (seeded from genesis, committed on success, restored on revert) the monitor predicts registers, $err, destination bytes, StorageOutOfBounds / TooManySlots panics and the post-state, and compares the WHOLE persistent ContractsState table after every storage step. Non-trivial: a legacy read of a slot written dynamically with length ≠ 32, or a range clear crossing cached and uncached slots.",
-        "C34" => "Observer replica over generated call trees (acyclic by construction in the safe form, recursion and absent targets in the wild form; coins and gas forwarded; RET and RETD; callee heap allocations). At every successful CALL: frame bytes (callee id, asset id, 64 saved registers, padded code size, a, b), callee's $fp/$ssp=$sp/$is=$pc/$bal/$flag=0 and unchanged program registers; at the matching return: every register equals the caller's at the call except $cgas/$ggas/$ret/$retl/$hp and $pc+4, the caller's region ([$ssp,$sp) for scripts, [$fp,$sp) for contracts) is byte-identical, $hp did not move up and the callee's heap is readable. Non-trivial: call depth ≥ 2 and a RETD with length ≥ 1.",
+        "C34" => "Observer replica over generated call trees (acyclic by construction in the safe form, recursion and absent targets in the wild form; coins and gas forwarded; RET and RETD; callee heap allocations). Calls are made with $sp not 8-aligned, with a live $of / $err / changed $flag. At every successful CALL: the caller's region recorded before the instruction is untouched by it, the frame starts at the caller's $sp, frame bytes (callee id, asset id, 64 saved registers, padded code size, a, b), the code behind the frame equals the callee's stored bytecode with zero padding, callee's $fp/$ssp=$sp/$is=$pc/$bal/$flag=0 and unchanged program registers; at the matching return: every register equals the caller's at the call except $cgas/$ggas/$ret/$retl/$hp and $pc+4, the caller's region ([$ssp,$sp) for scripts, [$fp,$sp) for contracts) is byte-identical, the return itself does not change $hp, $hp did not move up and the callee's heap is readable. Non-trivial: call depth ≥ 2 and a RETD with length ≥ 1.",
         _ => "see DESIGN.md",
     };
     EngineDescription {
